@@ -1,6 +1,7 @@
 from checks import server_family
 from checks import c04
 from checks import c01
+from checks import c03
 
 
 def c08(ctx):
@@ -21,6 +22,7 @@ def c07(ctx):
 
 CHECKS = {
     "C01": c01.run,
+    "C03": c03.run,
     "C04": c04.run,
     "C02": c02,
     "C06": c06,
